@@ -14,7 +14,7 @@ CHECKS = {
         "text": "TLC checks exclusivity, monotonicity and placement-independence of the version gates on the pragma-scan machine for every version triple in 0.0.0..2.12.40, operator spelling and header shape; every generated header is rendered and replayed into the four real detectors and the real version extraction; corpus programs under sampled versions are validated by the TV_C09 trace specification.",
         "design_ref": "section 7 C09",
         "note": "Exhaustive over the stated box of versions (quick: all versions bare, boundary versions for all spellings); fixed file body; trusts TLC and solang-parser.",
-        "technique": "TLA+ spec (Version.tla, VersionGates.tla) + TLC exhaustive enumeration + replay into real code + TLC trace validation; gate lemmas for all naturals proved with TLAPS (VersionProofs.tla)",
+        "technique": "TLA+ spec (Version.tla, VersionGates.tla, GatedContent.tla) + TLC exhaustive enumeration + replay into real code + TLC trace validation of corpus and random programs (gate x tree-derived content); gate lemmas for all naturals proved with TLAPS (VersionProofs.tla)",
     },
     "C02": {
         "text": "TLC checks the offset->line Scan machine against the declarative LineOf on every small text and token-start offset, and the Emit layout machine against LineOf on every gap pattern; texts/offsets are replayed into get_line_number; corpus programs re-laid out with stress layouts and TLC-generated gap patterns are analysed by all 30 detectors and validated by the TV_C02 trace specification.",
@@ -86,25 +86,25 @@ CHECKS = {
         "text": "TLC generates every instance of the 11 detectors' pattern families (canonical, variants, near misses) in the syntactic positions of Gen.tla inside several kinds of host function; each file is rendered, parsed, projected (round trip) and analysed by the real detectors; TV_Patterns evaluates MustLines/MayLines of Patterns.tla on the projected tree and accepts iff Must <= reported <= May; corpus programs likewise.",
         "design_ref": "section 7 C05, section 8",
         "note": "Verdicts are bounds (Must <= reported <= May) evaluated by TLC on the projected tree of what solang parsed; regions the statement leaves open are don't-care; detectors that panic on a file are C04's subject and left out of the record.",
-        "technique": "TLA+ spec (Patterns.tla, PatGen/DeclGen, Gen frames) + TLC-generated files + real detectors + TLC trace validation",
+        "technique": "TLA+ spec (Patterns.tla, RefDetect.tla, PatGen/DeclGen, Gen frames) + TLC-generated files, corpus and random programs through the real detectors + TLC trace validation",
     },
     "C06": {
         "text": "TLC generates the attribute products of function-like and state-variable declarations in every contract kind / member position and all arrangements of members crossed with neighbourhoods of other top-level items; the real detectors' verdicts are validated by TV_Patterns against the iff-characterisations of Patterns.tla (Must = May on the domain), so a verdict influenced by another item is rejected.",
         "design_ref": "section 7 C06, section 8",
         "note": "Verdicts are bounds (Must <= reported <= May) evaluated by TLC on the projected tree of what solang parsed; regions the statement leaves open are don't-care; detectors that panic on a file are C04's subject and left out of the record.",
-        "technique": "TLA+ spec (Patterns.tla, PatGen/DeclGen, Gen frames) + TLC-generated files + real detectors + TLC trace validation",
+        "technique": "TLA+ spec (Patterns.tla, RefDetect.tla, PatGen/DeclGen, Gen frames) + TLC-generated files, corpus and random programs through the real detectors + TLC trace validation",
     },
     "C07": {
         "text": "TLC generates ERC20 member names, division/multiplication chains in all positions, pragma families and selfdestruct shapes (function kind x visibility x modifiers x msg.sender usage x call position); TV_Patterns validates the four real detectors against the Must / MustNot characterisations of Patterns.tla.",
         "design_ref": "section 7 C07, section 8",
         "note": "Verdicts are bounds (Must <= reported <= May) evaluated by TLC on the projected tree of what solang parsed; regions the statement leaves open are don't-care; detectors that panic on a file are C04's subject and left out of the record.",
-        "technique": "TLA+ spec (Patterns.tla, PatGen/DeclGen, Gen frames) + TLC-generated files + real detectors + TLC trace validation",
+        "technique": "TLA+ spec (Patterns.tla, RefDetect.tla, PatGen/DeclGen, Gen frames) + TLC-generated files, corpus and random programs through the real detectors + TLC trace validation",
     },
     "C08": {
         "text": "TLC generates the 15 kinds of write to a state variable in every syntactic position of every kind of host function (and in free functions), the state-variable attribute product, the immutable matrix (assigned in constructor x written elsewhere x type x right-hand side) and the calldata matrix (function kind x storage x named x kind and place of write); TV_Patterns validates the four real detectors against Patterns.tla, restricted to files in which state-variable names are unique and not shadowed.",
         "design_ref": "section 7 C08, section 8",
         "note": "Verdicts are bounds (Must <= reported <= May) evaluated by TLC on the projected tree of what solang parsed; regions the statement leaves open are don't-care; detectors that panic on a file are C04's subject and left out of the record.",
-        "technique": "TLA+ spec (Patterns.tla, PatGen/DeclGen, Gen frames) + TLC-generated files + real detectors + TLC trace validation",
+        "technique": "TLA+ spec (Patterns.tla, RefDetect.tla, PatGen/DeclGen, Gen frames) + TLC-generated files, corpus and random programs through the real detectors + TLC trace validation",
     },
     "C04": {
         "text": "TLC generates the product of input classes that reach the fallible sites of the detectors (pragma classes, item kinds, numeric literals of every size and spelling in operator slots, call arities of special callees, up to 300 functions before a constructor, odd declarations) plus the trees of C01 and the pattern families of C05-C08; every file and corpus program goes through all 30 detectors under catch_unwind and a watchdog in a build with and a build without overflow checks; TV_Totality accepts iff every detector returned a set and the builds agree.",
